@@ -142,7 +142,7 @@ theorem pipeAdd_refuse {V : Variant} {v1 : Bool} {sS sR : List Bytes} {s : State
     (hA : All V s) (hR : R' V v1 sS sR s j) (peer : Nat) (hcond : peer ≠ V.peer ∨ s.cur.isSome = true)
     (hA' : All V (modPipe (withNewPipe s) s.pipes.length fun pp => { pp with closed := true })) :
     R' V v1 sS sR (modPipe (withNewPipe s) s.pipes.length fun pp => { pp with closed := true })
-      (pairStep j (.pipeAdd peer) [.pipe ↑s.pipes.length, .pclosed s.pipes.length]) := by
+      (pairStepOld j (.pipeAdd peer) [.pipe ↑s.pipes.length, .pclosed s.pipes.length]) := by
   have hR0 := hR.1
   have hne : ∀ q, j.live = some q → (s.pipes.length == q) = false := by
     intro q hq
@@ -186,7 +186,7 @@ theorem pipeAdd_refuse {V : Variant} {v1 : Bool} {sS sR : List Bytes} {s : State
 theorem ev_pipeAdd {V : Variant} {v1 : Bool} {sS sR : List Bytes} {s : State} {j : PairJ} (hV : VJ V v1)
     (hA : All V s) (hR : R' V v1 sS sR s j) (peer : Nat) (hA' : All V (stepLive V s (.pipeAdd peer)).1) :
     R' V v1 sS sR (stepLive V s (.pipeAdd peer)).1
-      (pairStep j (.pipeAdd peer) (stepLive V s (.pipeAdd peer)).2) := by
+      (pairStepOld j (.pipeAdd peer) (stepLive V s (.pipeAdd peer)).2) := by
   have hR0 := hR.1
   simp only [stepLive] at hA' ⊢
   unfold pipeStart at hA' ⊢
